@@ -139,6 +139,12 @@ fn check_inner(c: &Case) -> Vec<(String, String)> {
         let (s, d, q) = (hd.submitted(), hd.drained(), hd.queued());
         if s != accepted.len() as u64 { fails.push(("C15".into(), format!("submitted() == {} but {} emits returned Ok", s, accepted.len()))); }
         if d != entered.len() as u64 { fails.push(("C15".into(), format!("drained() == {} but {} metrics were handed to the wrapped sink", d, entered.len()))); }
+        // the reported panic count equals the number of panics that occurred (the count is updated while
+        // the worker thread unwinds, so allow it a moment to get there; it must never overshoot)
+        let exp_p = c.outs.iter().take(released).filter(|o| **o == 'p').count() as u64;
+        let t0 = std::time::Instant::now();
+        while hd.panics() < exp_p && t0.elapsed() < Duration::from_secs(5) { std::thread::sleep(Duration::from_millis(5)); }
+        if hd.panics() != exp_p { fails.push(("C11".into(), format!("the wrapped sink panicked {} time(s) but panics() == {}", exp_p, hd.panics()))); }
         if q != s.saturating_sub(d) { fails.push(("C15".into(), format!("queued() == {} but submitted - drained == {}", q, s.saturating_sub(d)))); }
     }
     // shutdown: drop every handle, open all gates, expect everything delivered and the wrapped sink dropped
